@@ -13,6 +13,8 @@ from .optimize_contractions import (
 
 from sympy import Symbol, Rational, Pow, Mul, sympify
 from collections import Counter
+import itertools
+from string import ascii_letters
 
 
 def generate_code(expr: Expr, target_indices: str,
@@ -190,6 +192,11 @@ def format_contraction(contraction: Contraction,
     target = "".join(idx.name for idx in contraction.target)
 
     if backend == "einsum":
+        # einsum only accepts single letters as subscripts
+        letters = einsum_subscripts(contraction)
+        idx_str = ["".join(letters[idx.name] for idx in indices)
+                   for indices in contraction.indices if indices]
+        target = "".join(letters[idx.name] for idx in contraction.target)
         return format_einsum_contraction(tensors=tensors, factors=factors,
                                          indices=idx_str, target=target)
     elif backend == "libtensor":
@@ -199,6 +206,35 @@ def format_contraction(contraction: Contraction,
     else:
         raise NotImplementedError("Contraction not implemented for backend "
                                   f"{backend}.")
+
+
+def einsum_subscripts(contraction: Contraction) -> dict[str, str]:
+    """
+    Assigns a single letter to the name of each index of the contraction,
+    because einsum does not accept subscripts like 'i3' or 'a12'.
+    Names that consist of a single letter are not modified. The remaining
+    names are mapped onto a letter that is not used in the contraction:
+    preferably the letter of the name, then another letter of the same space
+    and finally any other available letter.
+    """
+    names: dict[str, str] = {}  # name -> space. dict to keep the order
+    for idx in itertools.chain(*contraction.indices, contraction.target):
+        names[idx.name] = idx.space
+    letters = {name: name for name in names if len(name) == 1}
+    used = set(letters.values())
+    for name, space in names.items():
+        if name in letters:
+            continue
+        candidates = itertools.chain(name[0], Indices.base[space],
+                                     ascii_letters)
+        letter = next((c for c in candidates if c not in used), None)
+        if letter is None:
+            raise NotImplementedError("Not enough letters available to build "
+                                      "the einsum subscripts for "
+                                      f"{contraction}.")
+        letters[name] = letter
+        used.add(letter)
+    return letters
 
 
 def format_einsum_contraction(tensors: list[str], factors: list[str],
